@@ -377,15 +377,35 @@ func Harness_C05_ssh_ed25519_stanza() {
 	pub := V.Bytes("pub", 32)
 	mont := V.Bytes("mont", 32)
 	fileKey := V.Bytes("fk", 16)
+	if V.Symbolic() {
+		compareSSHStanza(pub, mont, fileKey, true)
+		return
+	}
+	// The key tag is a hash of the key: inside the engine it is an arbitrary
+	// 4-byte value, natively it is whatever SHA-256 gives for the model's key.
+	// The replay therefore tries the model's key and 63 variations of it, which
+	// between them produce tags with every kind of base64 character.
+	for v := 0; v < 64; v++ {
+		p := append([]byte(nil), pub...)
+		p[0] ^= byte(v)
+		V.InstallTape()
+		compareSSHStanza(p, mont, fileKey, v == 0)
+	}
+}
+
+func compareSSHStanza(pub, mont, fileKey []byte, label bool) {
 	key := fakeKey{ed25519.PublicKey(pub)}
 	r := &Ed25519Recipient{sshKey: key, theirPublicKey: mont}
+	nd := len(V.Draws())
 	st, err := r.Wrap(fileKey)
 	if err != nil {
-		V.Reach("refused") // an arbitrary 32-byte string may be a low-order point
+		if label {
+			V.Reach("refused") // an arbitrary 32-byte string may be a low-order point
+		}
 		return
 	}
 	V.Assert(len(st) == 1, "Wrap did not return one stanza")
-	draws := V.Draws()
+	draws := V.Draws()[nd:]
 	V.Assert(len(draws) == 1 && len(draws[0]) == 32, "unexpected random draws")
 	if len(st) != 1 || len(draws) != 1 {
 		return
@@ -403,7 +423,9 @@ func Harness_C05_ssh_ed25519_stanza() {
 	wk := refKDF(shared, salt, "age-encryption.org/v1/ssh-ed25519")
 	a, _ := chacha20poly1305.New(wk)
 	body := a.Seal(nil, make([]byte, 12), fileKey, nil)
-	V.Reach("compared")
+	if label {
+		V.Reach("compared")
+	}
 	V.Assert(st[0].Type == "ssh-ed25519" && len(st[0].Args) == 2, "ssh-ed25519 stanza type or argument count differs from the format")
 	if len(st[0].Args) == 2 {
 		V.Assert(st[0].Args[0] == tag, "ssh-ed25519 key tag differs from the format (4 bytes of SHA-256 of the wire key, unpadded standard base64)")
